@@ -75,4 +75,12 @@ theorem sum_map_setAt {α : Type} (f : α → Nat) (l : List α) (i : Nat) (a x 
 theorem mem_of_getElem? {α : Type} {l : List α} {i : Nat} {x : α} (h : l[i]? = some x) : x ∈ l := by
   exact List.mem_of_getElem? h
 
+theorem setAt_same' {α : Type} (l : List α) (i : Nat) (x : α) (h : l[i]? = some x) : setAt l i x = l := by
+  induction l generalizing i with
+  | nil => rfl
+  | cons y ys ih =>
+    cases i with
+    | zero => simp only [List.getElem?_cons_zero, Option.some.injEq] at h; subst h; rfl
+    | succ n => simp only [List.getElem?_cons_succ] at h; simp only [setAt, ih n h]
+
 end MetricsVerif
